@@ -24,7 +24,7 @@ for pid in sorted(CLAIMS):
     c = dict(CLAIMS[pid])
     ids = rule_ids(pid)
     if ids:
-        c["text"] = c["text"] + " Rules decided on every run: " + ", ".join(ids) + " (each stated in /verif/evidence/" + pid + ".json; rules added after the seeding rounds: DESIGN.md 8.9, 8.11, 8.12). A VIOLATION needs a positive witness; an anchor that cannot be resolved makes the check UNDECIDED (exit 3)."
+        c["text"] = c["text"] + " Rules decided on every run: " + ", ".join(ids) + " (each stated in /verif/evidence/" + pid + ".json; rules added after the seeding rounds: DESIGN.md 8.9, 8.11, 8.13). A VIOLATION needs a positive witness; an anchor that cannot be resolved makes the check UNDECIDED (exit 3)."
     checks.append({
         "property_id": pid,
         "quick_cmd": f"/verif/bin/fsdbcheck -prop {pid} -tier quick",
